@@ -30,7 +30,7 @@ def build(repo, findings):
     u.add(f)
     u.raw('}\n')
     fn = 'assignment_only_tail'
-    t = interp.slice('execute_in_pipeline', r'^\s*if status_change_count_before_expansion == context\.shell\.last_exit_status_change_count\(\)$',
+    t = interp.slice('execute_in_pipeline', r'^\s*context\.shell\.update_last_arg_variable\(None\);$',
                      r'^\s*Ok\(ExecutionResult::new\(context\.shell\.last_exit_status\(\)\)\.into\(\)\)$',
                      'fn assignment_only_tail(shell: &mut Shell, status_change_count_before_expansion: usize) -> Result<ExecutionSpawnResult, error::Error>', fn, nth=2)
     t.r1().resub(r'\bcontext\.shell\.', 'shell.', 'R6', 'slice wrapper: context.shell -> the `&mut` parameter', count=None)
